@@ -1880,6 +1880,80 @@ func (c *Ctx) c14ClientErrors() {
 			}
 		}
 		if !tested {
+			// the status may be judged by a helper that is handed the response and whose verdict
+			// this function returns (return statusError(resp))
+			delegated := false
+			eng.EachInstr(fn, func(in ssa.Instruction) {
+				hc, ok := in.(*ssa.Call)
+				if !ok || delegated {
+					return
+				}
+				g := eng.StaticCallee(hc.Common())
+				if g == nil || eng.FuncPkgPath(g) != eng.FuncPkgPath(fn) || len(g.Blocks) == 0 {
+					return
+				}
+				takesResp := false
+				for _, a := range hc.Call.Args {
+					if pt, ok := a.Type().(*types.Pointer); ok {
+						if nm, ok := pt.Elem().(*types.Named); ok && nm.Obj().Name() == "Response" && nm.Obj().Pkg() != nil && nm.Obj().Pkg().Path() == "net/http" {
+							takesResp = true
+						}
+					}
+				}
+				if !takesResp {
+					return
+				}
+				// the helper tests the status and reports an error on the non-200 edge
+				okHelper := false
+				for _, b := range g.Blocks {
+					for k := 0; k < len(b.Succs) && len(b.Succs) == 2; k++ {
+						rel, ok := eng.EdgeRel(b, k)
+						if !ok || !isStatus(rel.X) || rel.Op != token.NEQ {
+							continue
+						}
+						if kv, isC := eng.ConstInt(rel.Y); isC && kv == 200 {
+							bad := (&eng.Search{Target: func(x ssa.Instruction) bool {
+								ret, isRet := x.(*ssa.Return)
+								if !isRet {
+									return false
+								}
+								res := eng.ReturnResults(ret)
+								e := res[len(res)-1]
+								return !(definitelyNonNilErr(e) || eng.KnownNonNil(e, ret.Block()))
+							}}).FromBlockStart(b.Succs[k])
+							okHelper = bad == nil
+						}
+					}
+				}
+				if !okHelper {
+					return
+				}
+				// …and this function returns the helper's verdict
+				if hc.Referrers() != nil {
+					for _, ref := range *hc.Referrers() {
+						switch y := ref.(type) {
+						case *ssa.Return:
+							delegated = true
+						case *ssa.Extract:
+							if y.Referrers() != nil {
+								for _, r2 := range *y.Referrers() {
+									if _, isRet := r2.(*ssa.Return); isRet {
+										delegated = true
+									}
+								}
+							}
+						}
+					}
+				}
+				if !delegated {
+					okM, _, _ := c.errFate(fn, hc, false, nil, "status check", hc, "", 0)
+					delegated = okM != ""
+				}
+			})
+			if delegated {
+				r.Ok(rule, cons, p.InstrPos(got), "the status is judged by a helper whose verdict the function returns")
+				continue
+			}
 			r.Bad(rule, cons, p.InstrPos(got), "%s receives an HTTP response and never compares its status with 200: a 404 or a 500 is reported to the caller as success", shortFn(fn))
 			continue
 		}
